@@ -119,4 +119,19 @@ func init() {
 		{"sparse6-bit-index-from-wrong-base", "graph/encoding.go", "\t\t\tx = 2*x + int(((s[i+p/6]-63)>>uint(5-p%6))&1)", "\t\t\tx = 2*x + int(((s[i+1+p/6]-63)>>uint(5-p%6))&1)", "BOUNDS:graph.Sparse6Decode"},
 		{"sparse6-numbits-counts-header", "graph/encoding.go", "\tnumBits := 6 * (len(s) - i)\n", "\tnumBits := 6 * len(s)\n", "BOUNDS:graph.Sparse6Decode"},
 	}
+	mutants["C07"] = []mutant{
+		{"g6enc-long-header-shift", "graph/encoding.go", "\t\ts[4] = byte((n>>18)&63) + 63\n\t\ts[5] = byte((n>>12)&63) + 63\n\t\ts[6] = byte((n>>6)&63) + 63\n\t\ts[7] = byte(n&63) + 63\n\t} else {\n\t\tpanic(\"Graph too large\")\n\t}\n\n\tvar b byte\n\tbIndex := 0", "\t\ts[4] = byte((n>>16)&63) + 63\n\t\ts[5] = byte((n>>12)&63) + 63\n\t\ts[6] = byte((n>>6)&63) + 63\n\t\ts[7] = byte(n&63) + 63\n\t} else {\n\t\tpanic(\"Graph too large\")\n\t}\n\n\tvar b byte\n\tbIndex := 0", "HDR:graph.Graph6Encode:header bytes for n<=68719476735"},
+		{"g6enc-threshold-258048", "graph/encoding.go", "\t} else if n <= 258047 {\n\t\ts = make([]byte, 4, 4+", "\t} else if n <= 258048 {\n\t\ts = make([]byte, 4, 4+", "HDR:graph.Graph6Encode:header threshold 258047"},
+		{"g6enc-short-threshold-63", "graph/encoding.go", "\t} else if n <= 62 {\n\t\ts = make([]byte, 1, 1+", "\t} else if n <= 63 {\n\t\ts = make([]byte, 1, 1+", "HDR:graph.Graph6Encode:header threshold 62"},
+		{"s6enc-middle-sextet-mask", "graph/encoding.go", "\t\ts[3] = byte((n>>6)&63) + 63\n\t\ts[4] = byte(n&63) + 63\n\t} else if n <= 68719476735 {\n\t\ts = make([]byte, 9,", "\t\ts[3] = byte((n>>6)&31) + 63\n\t\ts[4] = byte(n&63) + 63\n\t} else if n <= 68719476735 {\n\t\ts = make([]byte, 9,", "HDR:graph.Sparse6Encode:header bytes for n<=258047"},
+		{"s6enc-long-header-one-marker", "graph/encoding.go", "\t\ts = make([]byte, 9, 9+((k+1)*2*m+5)/6)\n\t\ts[0] = 58\n\t\ts[1] = 126\n\t\ts[2] = 126\n", "\t\ts = make([]byte, 9, 9+((k+1)*2*m+5)/6)\n\t\ts[0] = 58\n\t\ts[1] = 126\n\t\ts[2] = 125\n", "HDR:graph.Sparse6Encode:header bytes for n<=68719476735"},
+		{"g6dec-four-byte-shift", "graph/encoding.go", "\t\tn = (uint64(s[1]-63) << 12) + (uint64(s[2]-63) << 6) + uint64(s[3]-63)\n\t\ti = 4\n\t} else {\n\t\tif len(s) < 8 {\n\t\t\treturn &DenseGraph{}", "\t\tn = (uint64(s[1]-63) << 12) + (uint64(s[2]-63) << 8) + uint64(s[3]-63)\n\t\ti = 4\n\t} else {\n\t\tif len(s) < 8 {\n\t\t\treturn &DenseGraph{}", "HDR:graph.Graph6Decode:header sum"},
+		{"s6dec-eight-byte-data-offset", "graph/encoding.go", "uint64(s[7]-63)\n\t\ti = 8\n\t}\n\n\tg := NewSparse", "uint64(s[7]-63)\n\t\ti = 7\n\t}\n\n\tg := NewSparse", "HDR:graph.Sparse6Decode:data offset after header"},
+		{"s6dec-marker-byte", "graph/encoding.go", "\t} else if s[1] != 126 {\n\t\tn = (uint64(s[1]-63) << 12) + (uint64(s[2]-63) << 6) + uint64(s[3]-63)\n\t\ti = 4\n\t} else {\n\t\tif len(s) < 8 {\n\t\t\treturn &SparseGraph{}", "\t} else if s[1] != 125 {\n\t\tn = (uint64(s[1]-63) << 12) + (uint64(s[2]-63) << 6) + uint64(s[3]-63)\n\t\ti = 4\n\t} else {\n\t\tif len(s) < 8 {\n\t\t\treturn &SparseGraph{}", "HDR:graph.Sparse6Decode:marker"},
+		{"g6dec-bit-order-reversed", "graph/encoding.go", "edges[j] = ((s[i+j/6] - 63) & (1 << uint(5-(j%6)))) >> uint(5-(j%6))", "edges[j] = ((s[i+j/6] - 63) & (1 << uint(4-(j%6)))) >> uint(4-(j%6))", "SEXTET:graph.Graph6Decode:top bit index"},
+		{"g6enc-wrap-at-seven", "graph/encoding.go", "\t\t\tbIndex++\n\t\t\tif bIndex == 6 {", "\t\t\tbIndex++\n\t\t\tif bIndex == 7 {", "SEXTET:graph.Graph6Encode:bits per byte"},
+		{"s6dec-range-upper-127", "graph/encoding.go", "\t\tif s[i] < 63 || s[i] > 126 {\n\t\t\treturn &SparseGraph{}", "\t\tif s[i] < 63 || s[i] > 127 {\n\t\t\treturn &SparseGraph{}", "SEXTET:graph.Sparse6Decode:highest valid byte"},
+		{"s6enc-k-bits-of-n", "graph/encoding.go", "\tk := 64 - bits.LeadingZeros64(uint64(n-1))\n", "\tk := 64 - bits.LeadingZeros64(uint64(n))\n", "SEXTET:graph.Sparse6Encode:k formula"},
+		{"g6enc-offset-64", "graph/encoding.go", "\tif bIndex != 0 {\n\t\ts = append(s, b+63)\n\t}", "\tif bIndex != 0 {\n\t\ts = append(s, b+64)\n\t}", "SEXTET:graph.Graph6Encode:byte offset"},
+	}
 }
